@@ -32,9 +32,15 @@ func newPool2() *pool2 {
 }
 
 type meshState2 struct {
+	key  string // canonical state key, taken before any query touches the mesh
 	m    *model2d.Mesh
 	ref  []*model2d.Segment // insertion-ordered list of current faces
 	pool *pool2
+	// after a "fork" the original stays alive next to its Copy: edits of one must
+	// never show through the other
+	other     *model2d.Mesh
+	otherRef  []*model2d.Segment
+	sinceFork int
 }
 
 func (s *meshState2) has(f *model2d.Segment) int {
@@ -78,6 +84,15 @@ func (s *meshState2) apply(o meshOp) {
 		}
 	case "copy":
 		s.m = s.m.Copy()
+	case "fork":
+		s.other, s.otherRef = s.m, append([]*model2d.Segment{}, s.ref...)
+		s.m = s.m.Copy()
+	case "swap":
+		s.m, s.other = s.other, s.m
+		s.ref, s.otherRef = s.otherRef, s.ref
+	}
+	if s.other != nil {
+		s.sinceFork++
 	}
 }
 
@@ -90,6 +105,18 @@ func (s *meshState2) canon() string {
 	}
 	built, fast, _ := model2d.VerifMeshIndexState(s.m)
 	key := fmt.Sprintf("2d|%x|%v|%v", mask, built, fast)
+	if s.other != nil {
+		omask := 0
+		for i, f := range s.pool.faces {
+			for _, t := range s.otherRef {
+				if t == f {
+					omask |= 1 << uint(i)
+				}
+			}
+		}
+		ob, of, _ := model2d.VerifMeshIndexState(s.other)
+		key += fmt.Sprintf("|fork:%x|%v|%v", omask, ob, of)
+	}
 	if built {
 		var sp []string
 		for _, v := range s.m.VertexSlice() {
@@ -108,8 +135,17 @@ func runMesh2(hist []meshOp) (*meshState2, string) {
 			return s, fmt.Sprintf("panic in step %d %v: %s", i+1, o, p)
 		}
 	}
+	// the key must be taken first: the queries below build the lazy index of this instance
+	s.key = s.canon()
 	var pr string
-	if p := ev.Try(func() { pr = meshq.Check2(s.m, s.ref, s.pool.verts, s.pool.faces) }); p != "" {
+	if p := ev.Try(func() {
+		pr = meshq.Check2(s.m, s.ref, s.pool.verts, s.pool.faces)
+		if pr == "" && s.other != nil {
+			if pr = meshq.Check2(s.other, s.otherRef, s.pool.verts, s.pool.faces); pr != "" {
+				pr = "the other mesh of a Copy pair (edited only through its twin): " + pr
+			}
+		}
+	}); p != "" {
 		pr = "panic in query: " + p
 	}
 	return s, pr
@@ -213,15 +249,31 @@ func bfsMesh2(r *ev.Run) {
 	for i := range p.faces {
 		ops = append(ops, meshOp{"add", i}, meshOp{"remove", i})
 	}
-	ops = append(ops, meshOp{"touch", 0}, meshOp{"addmesh", 0}, meshOp{"addmesh", 1}, meshOp{"copy", 0})
+	ops = append(ops, meshOp{"touch", 0}, meshOp{"addmesh", 0}, meshOp{"addmesh", 1}, meshOp{"copy", 0}, meshOp{"fork", 0}, meshOp{"swap", 0})
+	forkDepth := 3
+	if r.Thorough() {
+		forkDepth = 5
+	}
 	s0, _ := runMesh2(nil)
-	r.StateKey(s0.canon())
+	r.StateKey(s0.key)
 	frontier := [][]meshOp{nil}
 	fastSlow := 0
 	for len(frontier) > 0 {
 		var next [][]meshOp
 		for _, h := range frontier {
+			forked, since := false, 0
+			for _, x := range h {
+				if x.Op == "fork" {
+					forked = true
+				}
+				if forked {
+					since++
+				}
+			}
 			for _, o := range ops {
+				if (o.Op == "fork" || o.Op == "copy") && forked || o.Op == "swap" && !forked || forked && since >= forkDepth {
+					continue
+				}
 				hist := append(append([]meshOp{}, h...), o)
 				s, problem := runMesh2(hist)
 				r.Transitions(1)
@@ -231,15 +283,18 @@ func bfsMesh2(r *ev.Run) {
 					r.Violation("mesh2d/"+classifyMesh(problem), problem, meshCase{2, hist, ""})
 					continue
 				}
-				if !r.StateKey(s.canon()) {
+				if !r.StateKey(s.key) {
 					continue
 				}
-				if b, f, _ := model2d.VerifMeshIndexState(s.m); b && !f {
+				if strings.Contains(s.key, "|true|false") {
 					fastSlow++
 				}
 				next = append(next, hist)
 				if len(hist) == 5 {
 					r.Sample(meshCase{2, hist, ""})
+				}
+				if s.other != nil {
+					continue // derived meshes are checked in the unforked states
 				}
 				which, pr := derived2(s)
 				r.Eval(11)
